@@ -4,6 +4,8 @@ patch=$1; shift
 cd /repo && git status --short | grep -q . && { echo "/repo not clean"; exit 1; }
 git apply "$patch" || { echo "patch does not apply"; exit 1; }
 cd /verif
+# evidence / replays of a run against a seeded tree go to a scratch root, never into /verif
+export VERIF_ROOT=/tmp/vr-try; mkdir -p $VERIF_ROOT; cp /verif/known_findings.json $VERIF_ROOT/
 for c in "$@"; do
   timeout 1200 ./check $c quick > /tmp/seedrun-$c.out 2>&1; echo "$c exit=$?"
   grep -E "VIOLATION|signature|SUMMARY|INCONCL" /tmp/seedrun-$c.out | cut -c1-230 | head -7
